@@ -558,6 +558,11 @@ where
             // calls again, yielding the runge-kutta steps.
             if self.yield_memory == O {
                 self.yield_memory -= 1;
+                // The derivative history has to follow the solution to the new time as well,
+                // otherwise every later step uses derivatives that lag one step behind.
+                self.prev_derivatives
+                    .push_back(self.implicit_derivs.clone());
+                self.prev_derivatives.pop_front();
                 return Err(IVPStatus::Redo);
             }
 
